@@ -61,9 +61,12 @@ func openDB(dir string, kv map[string]int) *NoKV.DB {
 	opt.HotRingWindowSlots = 0
 	opt.HotRingWindowSlotDuration = 0
 	opt.HotRingDecayInterval = 0
-	opt.HotWriteBurstThreshold = 0
+	opt.HotWriteBurstThreshold = int32(kv["hwb"]) // > 0: hot-write batching path (conc hw=1 only)
+	if kv["wbw"] > 0 {
+		opt.WriteBatchWait = time.Duration(kv["wbw"]) * time.Microsecond
+	}
 	opt.WriteHotKeyLimit = int32(kv["hot"])
-	opt.HotRingEnabled = kv["hot"] > 0
+	opt.HotRingEnabled = kv["hot"] > 0 || kv["hwb"] > 0
 	opt.MaxBatchCount = int64(kv["mbc"])
 	opt.MaxBatchSize = int64(kv["mbs"])
 	opt.WriteBatchMaxCount = kv["wbc"]
@@ -404,9 +407,9 @@ func (e *engine) Exec(ops []string) (out []string) {
 			c.throttle = false
 			c.drain()
 		case "conc":
-			out[i] = runConc(parseKV(f[1:]))
+			out[i] = stickyRun(op, "lin-ok", func() string { return runConc(parseKV(f[1:])) })
 		case "live":
-			out[i] = runLive(parseKV(f[1:]), cfgFlag("q.enqFailKeepsRef") == "false")
+			out[i] = stickyRun(op, "all-returned", func() string { return runLive(parseKV(f[1:]), cfgFlag("q.enqFailKeepsRef") == "false") })
 		case "hs":
 			out[i] = runHandshake(f[1:])
 		case "wgrace":
@@ -424,7 +427,11 @@ var keyPool = []string{"6b", "6b00", "6c", "ff"}
 
 func (e *engine) Gen(r *hlib.Rand, tier string) []string {
 	x := r.Intn(100)
-	if *prop == "C34" && x < 6 {
+	if *prop == "C34" && x < 8 {
+		if r.Chance(50) {
+			// hot-write path: few keys, every write followed by a read of the same key by the same goroutine
+			return []string{fmt.Sprintf("conc seed=%d g=6 n=30 keys=2 thr=0 hot=0 hw=1", r.Intn(1<<30))}
+		}
 		return []string{fmt.Sprintf("conc seed=%d g=6 n=40 keys=4 thr=%d hot=%d", r.Intn(1<<30), r.Intn(2), hlib.Pick(r, []int{0, 0, 0, 30}))}
 	}
 	if *prop == "C37" && x < 6 {
@@ -611,6 +618,22 @@ func (e *engine) Nontrivial(ops, impl, model, spec []string) bool {
 		return pendingDone || afterClose
 	}
 	return readBack && errClass
+}
+
+// A free-running workload that once produced a non-nominal outcome keeps reporting it for
+// the rest of this process: the shared runner re-executes a failing case (shrinking, final
+// report) and expects the same answer, which a race cannot promise.
+var sticky = map[string]string{}
+
+func stickyRun(op, nominal string, run func() string) string {
+	if r, ok := sticky[op]; ok {
+		return r
+	}
+	r := run()
+	if r != nominal {
+		sticky[op] = r
+	}
+	return r
 }
 
 // hsChildMain is set in the overlay build only (hs_child.go).
